@@ -277,6 +277,9 @@ func project(o *obj, names [][]byte, via int) ObjView {
 	return v
 }
 
+// keepMemo is set by the support scripts (heap_support.go), whose replays are separate histories
+var keepMemo bool
+
 // hugeLen: lengths logged as 2^30 + k stand for the largest integers (MaxInt64 - k) in the call; the specification
 // (whose integers are 32-bit) sees a window that overhangs every alignment either way
 func hugeLen(n int) int {
@@ -365,7 +368,9 @@ func runScript(env *Env, sc Script, viaBase int) {
 func runSteps(env *Env, id string, viaBase int, next func(h *heapRun, i int) *Step) {
 	h := &heapRun{seen: map[string]bool{}, via: viaBase}
 	h.note([]byte("~fresh~"))
-	env.Emit(map[string]interface{}{"h": id, "i": 0, "op": "Reset"})
+	// (keep: the histories that follow replay calls of the earlier ones - same object, same arguments, same seed - and
+	// are compared with them: the specification keeps its table of marked calls across this Reset)
+	env.Emit(map[string]interface{}{"h": id, "i": 0, "op": "Reset", "keep": keepMemo})
 	for i := 0; ; i++ {
 		stp := next(h, i)
 		if stp == nil {
